@@ -22,6 +22,20 @@ type Seg struct {
 	From *int64 `json:"from,omitempty"`
 	To   *int64 `json:"to,omitempty"`
 	Opt  bool   `json:"opt,omitempty"`
+	Pad  int    `json:"pad,omitempty"` // leading zeros in the decimal spelling of the index / slice bounds: [007], [-010:010] (the grammar is -?\d+)
+}
+
+// num spells an integer in decimal with pad leading zeros.
+func num(v int64, pad int) string {
+	s := strconv.FormatInt(v, 10)
+	if pad <= 0 {
+		return s
+	}
+	z := strings.Repeat("0", pad)
+	if v < 0 {
+		return "-" + z + s[1:]
+	}
+	return z + s
 }
 
 type Sel []Seg
@@ -39,14 +53,14 @@ func (s Seg) Text() string {
 	case "qfield":
 		return `["` + s.Name + `"]` + q
 	case "index":
-		return "[" + strconv.FormatInt(s.Idx, 10) + "]" + q
+		return "[" + num(s.Idx, s.Pad) + "]" + q
 	case "slice":
 		a, b := "", ""
 		if s.From != nil {
-			a = strconv.FormatInt(*s.From, 10)
+			a = num(*s.From, s.Pad)
 		}
 		if s.To != nil {
-			b = strconv.FormatInt(*s.To, 10)
+			b = num(*s.To, s.Pad)
 		}
 		return "[" + a + ":" + b + "]" + q
 	case "iter":
@@ -239,6 +253,13 @@ type GenCfg struct {
 
 func ip(i int64) *int64 { return &i }
 
+func drawPad(t *rapid.T) int {
+	if rapid.IntRange(0, 5).Draw(t, "padded") == 0 {
+		return rapid.IntRange(1, 3).Draw(t, "pad")
+	}
+	return 0
+}
+
 func GenSeg(t *rapid.T, cfg GenCfg) Seg {
 	names := cfg.Names
 	if names == nil {
@@ -263,9 +284,9 @@ func GenSeg(t *rapid.T, cfg GenCfg) Seg {
 		}
 		return Seg{Kind: "qfield", Name: n, Opt: opt}
 	case 4, 5:
-		return Seg{Kind: "index", Idx: int64(rapid.IntRange(-6, 6).Draw(t, "idx")), Opt: opt}
+		return Seg{Kind: "index", Idx: int64(rapid.IntRange(-6, 12).Draw(t, "idx")), Opt: opt, Pad: drawPad(t)}
 	case 6, 7:
-		s := Seg{Kind: "slice", Opt: opt}
+		s := Seg{Kind: "slice", Opt: opt, Pad: drawPad(t)}
 		m := rapid.IntRange(0, 2).Draw(t, "slmode")
 		if m != 0 {
 			s.From = ip(int64(rapid.IntRange(-7, 7).Draw(t, "from")))
@@ -401,9 +422,9 @@ func guided(t *rapid.T, cur val.V, cfg GenCfg) Seg {
 		}
 		switch m {
 		case 0, 1, 2:
-			return Seg{Kind: "index", Idx: int64(rapid.IntRange(-n-1, n).Draw(t, "idx")), Opt: opt}
+			return Seg{Kind: "index", Idx: int64(rapid.IntRange(-n-1, n).Draw(t, "idx")), Opt: opt, Pad: drawPad(t)}
 		case 3, 4:
-			s := Seg{Kind: "slice", Opt: opt}
+			s := Seg{Kind: "slice", Opt: opt, Pad: drawPad(t)}
 			sm := rapid.IntRange(0, 2).Draw(t, "slmode")
 			if sm != 0 {
 				s.From = ip(int64(rapid.IntRange(-n-2, n+2).Draw(t, "from")))
